@@ -104,10 +104,14 @@ def run(tier):
         plan.append((ctx, "SIGMA", vocab.SIGMA, 3 if quick else 4))
     for ctx in ("file", "func"):
         plan.append((ctx, "SIGMA_R", vocab.SIGMA_R, 5 if quick else 6))
+    for ctx in vocab.SPEC_CONTEXTS:
+        n_spec = (6 if ctx == "atomic-decl" else 5) if quick else 7
+        plan.append((ctx, "SPEC_SIGMA", vocab.SPEC_SIGMA, n_spec))
     levels = {}
     nontriv = 0
     for ctx, vname, voc, N in plan:
-        r = tokex.explore(vocab.CONTEXTS[ctx], voc, N, tok_visitor)
+        prefix = vocab.CONTEXTS.get(ctx) or vocab.SPEC_CONTEXTS[ctx]
+        r = tokex.explore(prefix, voc, N, tok_visitor)
         R.fail_many(r["fails"])
         merge(r["stats"])
         states += r["viable_total"]
@@ -121,6 +125,16 @@ def run(tier):
     if bad:
         R.fail("reduction-unsound", {"examples": bad[:3]}, "an extension of a non-viable string changed the outcome")
     R.set("reduction_extensions_checked", chk)
+
+    # regression anchors: the example input of every recorded finding (any property)
+    anchors = core.known_examples()
+    for ex in anchors:
+        for fname in ("f.c", ""):
+            out = core.parse_outcome(ex, fname)
+            sig = oracle(out, fname)
+            if sig is not None:
+                R.fail(sig, {"text": ex, "filename": fname}, out[-1])
+    R.set("regression_anchors", len(anchors))
 
     # (b) 1-edit neighbourhood of the small corpus files
     edits_run = 0
